@@ -5,9 +5,70 @@ from . import core
 
 REPO = os.environ.get('VERIF_REPO', '/repo')
 SOURCES = {}        # module name -> (path, sha256 of source)
+IFCONVERTED = {}    # module name -> qualnames where an if-conversion was applied
+
+
+# functions whose `if c: x = e1 [else: x = e2]` statements (single assignment per arm, same target, pure right-hand
+# sides - checked by reading; re-validated every run by the translator validation) are if-converted:
+# both arms are evaluated and merged with ite when the condition is symbolic.  Pattern not found => Leak at import.
+IFCONV = {
+    'crysp.crc': ('crc_table', 'crc_back_table', 'crc32_fix'),
+    'crysp.bits': ('Bits.__setitem__', 'Bits.signextend'),
+}
 
 
 class Tx(ast.NodeTransformer):
+    def __init__(self, modname=''):
+        self.modname = modname
+        self.stack = []
+        self.converted = []
+
+    def visit_ClassDef(self, node):
+        self.stack.append(node.name)
+        self.generic_visit(node)
+        self.stack.pop()
+        return node
+
+    def visit_FunctionDef(self, node):
+        self.stack.append(node.name)
+        self.generic_visit(node)
+        self.stack.pop()
+        return node
+
+    def _ifconv_target(self, st):
+        "single Assign/AugAssign to a Name or Attribute -> (key, target, value expression)"
+        if isinstance(st, ast.Assign) and len(st.targets) == 1 and isinstance(st.targets[0], (ast.Name, ast.Attribute)):
+            t = st.targets[0]
+            return ast.dump(t), t, st.value
+        if isinstance(st, ast.AugAssign) and isinstance(st.target, (ast.Name, ast.Attribute)):
+            t = st.target
+            load = ast.Name(t.id, ast.Load()) if isinstance(t, ast.Name) else ast.Attribute(t.value, t.attr, ast.Load())
+            return ast.dump(ast.Name(t.id, ast.Store()) if isinstance(t, ast.Name) else ast.Attribute(t.value, t.attr, ast.Store())), t, ast.BinOp(load, st.op, st.value)
+        return None
+
+    def _try_ifconv(self, node):
+        qn = '.'.join(self.stack)
+        if qn not in IFCONV.get(self.modname, ()):
+            return None
+        if len(node.body) != 1 or len(node.orelse) > 1:
+            return None
+        a = self._ifconv_target(node.body[0])
+        if a is None:
+            return None
+        key, tgt, e1 = a
+        if node.orelse:
+            b = self._ifconv_target(node.orelse[0])
+            if b is None or b[0] != key:
+                return None
+            e2 = b[2]
+        else:
+            e2 = ast.Name(tgt.id, ast.Load()) if isinstance(tgt, ast.Name) else ast.Attribute(tgt.value, tgt.attr, ast.Load())
+        store = ast.Name(tgt.id, ast.Store()) if isinstance(tgt, ast.Name) else ast.Attribute(tgt.value, tgt.attr, ast.Store())
+        lam = lambda e: ast.Lambda(ast.arguments(posonlyargs=[], args=[], kwonlyargs=[], kw_defaults=[], defaults=[]), e)
+        call = ast.Call(func=ast.Name('__sx_ite__', ast.Load()), args=[node.test, lam(e1), lam(e2)], keywords=[])
+        self.converted.append(qn)
+        return ast.copy_location(ast.Assign([store], call), node)
+
     def visit_Subscript(self, node):
         self.generic_visit(node)
         if isinstance(node.ctx, ast.Load):
@@ -88,6 +149,9 @@ class Tx(ast.NodeTransformer):
 
     def visit_If(self, node):
         self.generic_visit(node)
+        r = self._try_ifconv(node)
+        if r is not None:
+            return r
         node.test = self._reorder(node.test)
         return node
 
@@ -135,7 +199,9 @@ class Finder(importlib.abc.MetaPathFinder, importlib.abc.Loader):
         src = open(fn).read()
         SOURCES[module.__name__] = (fn, hashlib.sha256(src.encode()).hexdigest()[:16])
         tree = ast.parse(src, fn)
-        tree = Tx().visit(tree)
+        tx = Tx(module.__name__)
+        tree = tx.visit(tree)
+        IFCONVERTED[module.__name__] = list(tx.converted)
         ast.fix_missing_locations(tree)
         code = compile(tree, fn, 'exec')
         module.__dict__.update(core.SHIMS)
